@@ -107,6 +107,9 @@ class ConfigNodeMeta(NamespaceableMeta):
             return t(value, *args, nodes_memo=nodes_memo, _force_type=True, **kwargs)
 
         # actual object creation
+        if value is None:
+            nodes_memo = None # None is a singleton: entries holding it are not "the same object placed twice" and must not share a node
+
         if has_value and nodes_memo is not None and id(value) in nodes_memo:
             return nodes_memo[id(value)]
 
